@@ -189,6 +189,7 @@ func runC10(c *ev.Ctx) {
 	c10SendFailsAfterDelivery(c)
 	c10SendFailsLateReply(c)
 	c10SharedFile(c)
+	c10BreakUnderLoad(c)
 }
 
 // (1) reply permutations.
